@@ -19,6 +19,7 @@ Verdicts == (l > 0) =>
     /\ Check("FailingGetsUpdated", FailingGetsUpdated(R.docs, R.flags, R.obs))
     /\ Check("Accounted", Accounted(R.docs, R.flags, R.obs))
     /\ Check("WrittenFilesPass", R.written_pass)
+    /\ Check("BlocksKept", R.blocks_kept)        \* whatever is written for a document has as many test blocks as the document
     /\ LET p == Predict(R.docs, R.flags) IN
           \/ p.fs = R.obs.fs /\ p.status = R.obs.status /\ (p.status = "ok" => R.has_summary /\ p.counts = R.obs.counts)
           \/ PrintT(<<"DRIFT", "UpdateCommand", R.id>>)
